@@ -1,8 +1,347 @@
 package main
 
-import "go/ast"
+// Level-2 rewrites: goroutine spawns, channel operations, select.
 
-func (fc *fileCtx) rewriteChanRange(st *ast.RangeStmt) ast.Stmt { return st }
-func (fc *fileCtx) rewriteGo(st *ast.GoStmt) ast.Stmt          { return st }
-func (fc *fileCtx) rewriteSelect(st *ast.SelectStmt) ast.Stmt  { return st }
-func (fc *fileCtx) rewriteExprs()                              {}
+import (
+	"bytes"
+	"go/ast"
+	"go/printer"
+	"go/token"
+	"reflect"
+	"strconv"
+)
+
+// go f(a, b)  =>  { f__ := f; a0__ := a; a1__ := b; sched__.Go(func() { f__(a0__, a1__) }) }
+func (fc *fileCtx) rewriteGo(st *ast.GoStmt) ast.Stmt {
+	fc.rp.GoStmts++
+	fc.needSched = true
+	call := st.Call
+	var pre []ast.Stmt
+	fn := call.Fun
+	// bind the function value (method values bind their receiver now, as `go` does)
+	switch fn.(type) {
+	case *ast.Ident:
+		// plain function or variable: evaluated now for variables; binding keeps it uniform
+		f := fc.fresh("f")
+		pre = append(pre, &ast.AssignStmt{Lhs: []ast.Expr{f}, Tok: token.DEFINE, Rhs: []ast.Expr{fn}})
+		fn = f
+	default:
+		f := fc.fresh("f")
+		pre = append(pre, &ast.AssignStmt{Lhs: []ast.Expr{f}, Tok: token.DEFINE, Rhs: []ast.Expr{fn}})
+		fn = f
+	}
+	var args []ast.Expr
+	for _, a := range call.Args {
+		v := fc.fresh("a")
+		pre = append(pre, &ast.AssignStmt{Lhs: []ast.Expr{v}, Tok: token.DEFINE, Rhs: []ast.Expr{a}})
+		args = append(args, v)
+	}
+	inner := &ast.CallExpr{Fun: fn, Args: args, Ellipsis: call.Ellipsis}
+	lit := &ast.FuncLit{Type: &ast.FuncType{Params: &ast.FieldList{}}, Body: &ast.BlockStmt{List: []ast.Stmt{&ast.ExprStmt{X: inner}}}}
+	pre = append(pre, &ast.ExprStmt{X: call2("sched__", "Go", lit)})
+	return &ast.BlockStmt{List: pre}
+}
+
+func call2(pkg, fn string, args ...ast.Expr) *ast.CallExpr { return call(pkg, fn, args...) }
+
+// for x := range c { B }  =>  for { x, ok__ := vchan.Recv2(c); if !ok__ { break }; B }
+func (fc *fileCtx) rewriteChanRange(st *ast.RangeStmt) ast.Stmt {
+	fc.rp.ChanOps++
+	fc.needVchan = true
+	ok := fc.fresh("ok")
+	var lhs ast.Expr = ast.NewIdent("_")
+	tok := token.DEFINE
+	if st.Key != nil && !isBlank(st.Key) {
+		lhs = st.Key
+		if st.Tok == token.ASSIGN {
+			tok = token.ASSIGN
+		}
+	}
+	var head []ast.Stmt
+	if tok == token.ASSIGN {
+		head = append(head,
+			&ast.DeclStmt{Decl: &ast.GenDecl{Tok: token.VAR, Specs: []ast.Spec{&ast.ValueSpec{Names: []*ast.Ident{ok}, Type: ast.NewIdent("bool")}}}},
+			&ast.AssignStmt{Lhs: []ast.Expr{lhs, ok}, Tok: token.ASSIGN, Rhs: []ast.Expr{call("vchan__", "Recv2", st.X)}})
+	} else {
+		head = append(head, &ast.AssignStmt{Lhs: []ast.Expr{lhs, ok}, Tok: token.DEFINE, Rhs: []ast.Expr{call("vchan__", "Recv2", st.X)}})
+	}
+	head = append(head, &ast.IfStmt{Cond: &ast.UnaryExpr{Op: token.NOT, X: ok}, Body: &ast.BlockStmt{List: []ast.Stmt{&ast.BranchStmt{Tok: token.BREAK}}}})
+	body := &ast.BlockStmt{List: append(head, st.Body.List...)}
+	return &ast.ForStmt{Body: body}
+}
+
+// select { ... }  =>  { i__, r__, ok__ := vchan.Select(hasDefault, cases...); _, _ = r__, ok__; switch i__ { ... } }
+func (fc *fileCtx) rewriteSelect(st *ast.SelectStmt) ast.Stmt {
+	blk, _ := fc.rewriteSelectLabeled(st, nil)
+	return blk
+}
+
+func (fc *fileCtx) rewriteSelectLabeled(st *ast.SelectStmt, label *ast.Ident) (ast.Stmt, bool) {
+	fc.rp.Selects++
+	fc.needVchan = true
+	idx, rv, ok := fc.fresh("i"), fc.fresh("r"), fc.fresh("ok")
+	hasDefault := false
+	var caseArgs []ast.Expr
+	var clauses []ast.Stmt
+	var pre []ast.Stmt
+	n := 0
+	for _, cl := range st.Body.List {
+		cc := cl.(*ast.CommClause)
+		if cc.Comm == nil {
+			hasDefault = true
+			clauses = append(clauses, &ast.CaseClause{List: nil, Body: cc.Body})
+			continue
+		}
+		var body []ast.Stmt
+		switch cm := cc.Comm.(type) {
+		case *ast.SendStmt:
+			caseArgs = append(caseArgs, call("vchan__", "S", cm.Chan, cm.Value))
+		case *ast.ExprStmt:
+			ue := unparen(cm.X).(*ast.UnaryExpr)
+			caseArgs = append(caseArgs, call("vchan__", "R", ue.X))
+		case *ast.AssignStmt:
+			ue := unparen(cm.Rhs[0]).(*ast.UnaryExpr)
+			// the channel expression is evaluated once, up front: bind it when impure
+			chx := ue.X
+			if !isPure(chx) {
+				tmp := fc.fresh("c")
+				pre = append(pre, &ast.AssignStmt{Lhs: []ast.Expr{tmp}, Tok: token.DEFINE, Rhs: []ast.Expr{chx}})
+				chx = tmp
+			}
+			caseArgs = append(caseArgs, call("vchan__", "R", chx))
+			val := call("vchan__", "As", chx, rv)
+			if len(cm.Lhs) == 2 {
+				body = append(body, &ast.AssignStmt{Lhs: cm.Lhs, Tok: cm.Tok, Rhs: []ast.Expr{val, ok}})
+			} else {
+				body = append(body, &ast.AssignStmt{Lhs: cm.Lhs, Tok: cm.Tok, Rhs: []ast.Expr{val}})
+			}
+			if cm.Tok == token.DEFINE {
+				// avoid "declared and not used" for variables the body ignores
+				for _, l := range cm.Lhs {
+					if id, isId := l.(*ast.Ident); isId && id.Name != "_" {
+						body = append(body, &ast.AssignStmt{Lhs: []ast.Expr{ast.NewIdent("_")}, Tok: token.ASSIGN, Rhs: []ast.Expr{ast.NewIdent(id.Name)}})
+					}
+				}
+			}
+		}
+		body = append(body, cc.Body...)
+		clauses = append(clauses, &ast.CaseClause{List: []ast.Expr{&ast.BasicLit{Kind: token.INT, Value: itoa(n)}}, Body: body})
+		n++
+	}
+	hd := ast.NewIdent("false")
+	if hasDefault {
+		hd = ast.NewIdent("true")
+	}
+	args := append([]ast.Expr{hd}, caseArgs...)
+	init := &ast.AssignStmt{Lhs: []ast.Expr{idx, rv, ok}, Tok: token.DEFINE, Rhs: []ast.Expr{call("vchan__", "Select", args...)}}
+	use := &ast.AssignStmt{Lhs: []ast.Expr{ast.NewIdent("_"), ast.NewIdent("_")}, Tok: token.ASSIGN, Rhs: []ast.Expr{rv, ok}}
+	var sw ast.Stmt = &ast.SwitchStmt{Tag: idx, Body: &ast.BlockStmt{List: clauses}}
+	if label != nil {
+		sw = &ast.LabeledStmt{Label: label, Stmt: sw}
+	}
+	return &ast.BlockStmt{List: append(pre, init, use, sw)}, true
+}
+
+func unparen(e ast.Expr) ast.Expr {
+	for {
+		p, ok := e.(*ast.ParenExpr)
+		if !ok {
+			return e
+		}
+		e = p.X
+	}
+}
+
+func itoa(n int) string {
+	if n == 0 {
+		return "0"
+	}
+	s := ""
+	for n > 0 {
+		s = string(rune('0'+n%10)) + s
+		n /= 10
+	}
+	return s
+}
+
+// rewriteExprs replaces the remaining channel expressions anywhere in the file:
+//
+//	v, ok := <-c   =>  v, ok := vchan.Recv2(c)
+//	<-c            =>  vchan.Recv(c)
+//	close(c)       =>  vchan.Close(c)
+func (fc *fileCtx) rewriteExprs() {
+	// two-value receives first (statement level)
+	ast.Inspect(fc.file, func(n ast.Node) bool {
+		switch st := n.(type) {
+		case *ast.AssignStmt:
+			if len(st.Lhs) == 2 && len(st.Rhs) == 1 {
+				if ue, ok := unparen(st.Rhs[0]).(*ast.UnaryExpr); ok && ue.Op == token.ARROW {
+					st.Rhs[0] = call("vchan__", "Recv2", ue.X)
+					fc.needVchan = true
+					fc.rp.ChanOps++
+				}
+			}
+		case *ast.ValueSpec:
+			if len(st.Names) == 2 && len(st.Values) == 1 {
+				if ue, ok := unparen(st.Values[0]).(*ast.UnaryExpr); ok && ue.Op == token.ARROW {
+					st.Values[0] = call("vchan__", "Recv2", ue.X)
+					fc.needVchan = true
+					fc.rp.ChanOps++
+				}
+			}
+		}
+		return true
+	})
+	replaceExprs(fc.file, func(e ast.Expr) ast.Expr {
+		switch x := e.(type) {
+		case *ast.UnaryExpr:
+			if x.Op == token.ARROW {
+				fc.needVchan = true
+				fc.rp.ChanOps++
+				return call("vchan__", "Recv", x.X)
+			}
+		case *ast.CallExpr:
+			if id, ok := x.Fun.(*ast.Ident); ok && id.Name == "close" && len(x.Args) == 1 && fc.isChanOrUnknown(x.Args[0]) {
+				fc.needVchan = true
+				fc.rp.ChanOps++
+				return call("vchan__", "Close", x.Args[0])
+			}
+		}
+		return nil
+	})
+}
+
+func (fc *fileCtx) isChanOrUnknown(e ast.Expr) bool {
+	t := fc.typeOf(e)
+	if t == nil {
+		return true
+	}
+	return fc.isChan(e)
+}
+
+var exprType = reflect.TypeOf((*ast.Expr)(nil)).Elem()
+
+// replaceExprs walks every ast.Expr-typed field (and []ast.Expr element) under
+// root, bottom-up, replacing an expression when f returns non-nil.
+func replaceExprs(root ast.Node, f func(ast.Expr) ast.Expr) {
+	var visit func(v reflect.Value)
+	visit = func(v reflect.Value) {
+		switch v.Kind() {
+		case reflect.Ptr:
+			if v.IsNil() {
+				return
+			}
+			if _, isObj := v.Interface().(*ast.Object); isObj {
+				return
+			}
+			if _, isScope := v.Interface().(*ast.Scope); isScope {
+				return
+			}
+			visit(v.Elem())
+		case reflect.Interface:
+			if v.IsNil() {
+				return
+			}
+			visit(v.Elem())
+			if v.Type() == exprType && v.CanSet() {
+				if r := f(v.Interface().(ast.Expr)); r != nil {
+					v.Set(reflect.ValueOf(r))
+				}
+			}
+		case reflect.Struct:
+			for i := 0; i < v.NumField(); i++ {
+				fv := v.Field(i)
+				if fv.CanInterface() {
+					visit(fv)
+				}
+			}
+		case reflect.Slice:
+			for i := 0; i < v.Len(); i++ {
+				visit(v.Index(i))
+			}
+		}
+	}
+	visit(reflect.ValueOf(root))
+}
+
+// ---- level 3: map accesses (happens-before race detection) -------------------
+
+func (fc *fileCtx) exprText(e ast.Expr) string {
+	var buf bytes.Buffer
+	printer.Fprint(&buf, token.NewFileSet(), e)
+	return buf.String()
+}
+
+func funcName(fd *ast.FuncDecl, pkg string) string {
+	n := pkg + "."
+	if fd.Recv != nil && len(fd.Recv.List) == 1 {
+		t := fd.Recv.List[0].Type
+		if st, ok := t.(*ast.StarExpr); ok {
+			t = st.X
+		}
+		if id, ok := t.(*ast.Ident); ok {
+			n += id.Name + "."
+		}
+	}
+	return n + fd.Name.Name
+}
+
+// rewriteMapAccesses wraps the map operand of index expressions, delete() and
+// len() in vmem.R / vmem.W so that the scheduler's happens-before detector sees
+// every map read and write (with a line-number-free site name).
+func (fc *fileCtx) rewriteMapAccesses() {
+	pkgName := fc.file.Name.Name
+	for _, d := range fc.file.Decls {
+		fd, ok := d.(*ast.FuncDecl)
+		if !ok || fd.Body == nil {
+			continue
+		}
+		fn := funcName(fd, pkgName)
+		writes := map[*ast.IndexExpr]bool{}
+		ast.Inspect(fd.Body, func(n ast.Node) bool {
+			switch st := n.(type) {
+			case *ast.AssignStmt:
+				for _, l := range st.Lhs {
+					if ix, ok := unparen(l).(*ast.IndexExpr); ok {
+						writes[ix] = true
+					}
+				}
+			case *ast.IncDecStmt:
+				if ix, ok := unparen(st.X).(*ast.IndexExpr); ok {
+					writes[ix] = true
+				}
+			}
+			return true
+		})
+		wrap := func(m ast.Expr, write bool) ast.Expr {
+			fc.needVmem = true
+			fc.rp.MapAccess++
+			f := "R"
+			if write {
+				f = "W"
+			}
+			site := fn + ":" + fc.exprText(m)
+			return call("vmem__", f, m, &ast.BasicLit{Kind: token.STRING, Value: strconvQuote(site)})
+		}
+		replaceExprs(fd.Body, func(e ast.Expr) ast.Expr {
+			switch x := e.(type) {
+			case *ast.IndexExpr:
+				if fc.isMap(x.X) {
+					x.X = wrap(x.X, writes[x])
+				}
+			case *ast.CallExpr:
+				if id, ok := x.Fun.(*ast.Ident); ok && len(x.Args) >= 1 && fc.isMap(x.Args[0]) {
+					switch id.Name {
+					case "delete":
+						x.Args[0] = wrap(x.Args[0], true)
+					case "len":
+						x.Args[0] = wrap(x.Args[0], false)
+					}
+				}
+			}
+			return nil
+		})
+	}
+}
+
+func strconvQuote(s string) string { return strconv.Quote(s) }
